@@ -1384,13 +1384,14 @@ def recipe_pupil(name, kw):
             spider_offset /= pupil_diameter
             pupil_diameter = 1.0
         parts = [toks(['obstructed', pupil_diameter, central_obscuration_ratio, 0, 0.01])]
-        feats = [[0.0, 0.0]]
+        feats = [([0.0, 0.0], pupil_diameter * central_obscuration_ratio / 2)]
         if with_spiders:
             for off, deg, w in ((-spider_offset, 45.0, spider_width1), (-spider_offset, -45.0, spider_width1),
                                 (spider_offset, 45.0 + 180.0, spider_width2), (spider_offset, -45.0 + 180.0, spider_width2)):
                 parts.append(toks(['spiderinf', [float(off[0]), float(off[1])], deg, w]))
                 a = np.radians(deg)
-                feats += [[float(off[0]), float(off[1])], [float(off[0] + 0.3 * pupil_diameter * np.cos(a)), float(off[1] + 0.3 * pupil_diameter * np.sin(a))]]
+                # make_spider_infinite starts at -p
+                feats += [([float(-off[0]), float(-off[1])], 2 * w), ([float(-off[0] + 0.3 * pupil_diameter * np.cos(a)), float(-off[1] + 0.3 * pupil_diameter * np.sin(a))], 2 * w)]
         return mul(parts), pupil_diameter, feats
     if name == 'make_hale_aperture':
         pupil_diameter = 5.08
@@ -1406,13 +1407,14 @@ def recipe_pupil(name, kw):
             pupil_diameter = 1.0
         ob = ['obstructed', pupil_diameter, central_obscuration_ratio, 4, spider_width] if with_spiders else ['obstructed', pupil_diameter, central_obscuration_ratio, 0, 0.01]
         parts = [toks(ob), toks(['obstruction', ['rect', [box_width, box_heigth], None]]), toks(['obstruction', ['rect', [box_heigth, box_width], None]])]
-        feats = [[box_width / 2, 0.0], [0.0, box_width / 2], [-box_width / 2, box_heigth / 2], [0.3 * pupil_diameter, 0.0], [0.0, -0.3 * pupil_diameter]]
+        feats = [([box_width / 2, 0.0], box_heigth), ([0.0, box_width / 2], box_heigth), ([-box_width / 2, box_heigth / 2], box_heigth),
+                 ([0.3 * pupil_diameter, 0.0], spider_width), ([0.0, -0.3 * pupil_diameter], spider_width)]
         return mul(parts), pupil_diameter, feats
     if name == 'make_habex_aperture':
         pupil_diameter = 4.0
         if normalized:
             pupil_diameter = 1
-        return toks(['circle', pupil_diameter, None]), float(pupil_diameter), [[pupil_diameter / 2, 0.0]]
+        return toks(['circle', pupil_diameter, None]), float(pupil_diameter), [([pupil_diameter / 2, 0.0], pupil_diameter / 8)]
     if name == 'make_hst_aperture':
         pupil_diameter = 2.4
         secondary_obscuration_ratio = 0.330
@@ -1428,16 +1430,17 @@ def recipe_pupil(name, kw):
             pad_v2 *= pupil_diameter
             pad_radii *= pupil_diameter
         parts = [toks(['obstructed', pupil_diameter, secondary_obscuration_ratio, 4 if with_spiders else 0, spider_width])]
-        feats = [[0.3 * pupil_diameter, 0.0], [0.0, 0.3 * pupil_diameter]]
+        feats = [([0.3 * pupil_diameter, 0.0], spider_width), ([0.0, 0.3 * pupil_diameter], spider_width),
+                 ([pupil_diameter * secondary_obscuration_ratio / 2, 0.0], pupil_diameter / 16)]
         if kw.get('with_pads', True):
             for v3, v2, r in zip(pad_v3, pad_v2, pad_radii):
                 parts.append(toks(['obstruction', ['circle', float(2 * r), [float(-v2), float(v3)]]]))
-                feats.append([float(-v2), float(v3)])
+                feats += [([float(-v2), float(v3)], float(r)), ([float(-v2 + r), float(v3)], float(r) / 8)]
         return mul(parts), float(pupil_diameter), feats
     raise MachineryError('recipe_pupil: %r' % (name,))
 
 
-def run_recipe(ctx, name, kw, gseed, fam):
+def run_recipe(ctx, name, kw, gseed, fam, feat=None):
     """a simple telescope pupil against its recipe evaluated by the model (eval sep | pts | polar), on every representation;
     half of the grids zoom in on a feature (spider, pad, box corner) so that thin structures are resolved"""
     import hcipy
@@ -1447,9 +1450,14 @@ def run_recipe(ctx, name, kw, gseed, fam):
         gen = getattr(hcipy, name)(**kw)
     toks, D, feats = recipe_pupil(name, kw)
     short = name[len('make_'):-len('_aperture')]
-    if rng.random() < 0.5 and not fam.startswith('polar'):
-        c = feats[int(rng.integers(0, len(feats)))]
-        half = D * 10 ** float(rng.uniform(-2.3, -1.0))
+    if feat is not None:
+        # directed: a small grid around one feature, pixel size of the order of the feature's width (fine: an eighth of it)
+        c, w = feats[feat[0] % len(feats)]
+        half = 3 * w / (8 if feat[1] else 1)
+        ctx.count('recipe-grid:feature')
+    elif rng.random() < 0.5 and not fam.startswith('polar'):
+        c, w = feats[int(rng.integers(0, len(feats)))]
+        half = w * 10 ** float(rng.uniform(-0.5, 1.0))
         ctx.count('recipe-grid:zoomed')
     else:
         c = [0.0, 0.0]
@@ -1458,7 +1466,7 @@ def run_recipe(ctx, name, kw, gseed, fam):
     gspec = gen_grid_family(rng, fam, nmax=11, half=half, centre=(c[0], c[1]), exact=False)
     reps, xs, ys, sep = make_reps(gspec)
     scale = scale_of(xs, ys, D)
-    case = {'kind': 'recipe', 'name': name, 'kw': kw, 'gseed': int(gseed), 'fam': fam, 'grid': gspec}
+    case = {'kind': 'recipe', 'name': name, 'kw': kw, 'gseed': int(gseed), 'fam': fam, 'feat': feat, 'grid': gspec}
     tol = rat(REL_TOL * scale)
     res, fails = oracle(ctx, 'pupil:' + short, gen, reps, xs, ys, scale, {0.0, 1.0}, True)
     for key, what in fails:
@@ -1845,6 +1853,13 @@ def run(ctx):
                 checks.append((len(lines), len(l), chk))
                 lines += l
     # the simple telescope pupils as compositions of the modelled makers
+    for name, kw in RECIPE_PUPILS:
+        for i in range(len(recipe_pupil(name, kw)[2])):
+            for fine in (0, 1):
+                fam = 'regular' if (i + fine) % 2 == 0 else str(ctx.rng.choice(['sep-asc', 'sep-desc', 'sep-permuted', 'regular-reversed', 'regular-scaled-1']))
+                l, chk = run_recipe(ctx, name, kw, int(ctx.rng.integers(0, 2 ** 31)), fam, feat=[i, fine])
+                checks.append((len(lines), len(l), chk))
+                lines += l
     for _ in range(ctx.scale(1, 4)):
         for name, kw in RECIPE_PUPILS:
             for fam in FAMILIES:
@@ -1940,7 +1955,7 @@ def replay(ctx, case):
     elif case.get('kind') == 'vlt':
         run_vlt(ctx, case['kw'], case['gseed'], case['fam'], case.get('nseg', 2))
     elif case.get('kind') == 'recipe':
-        run_recipe(ctx, case['name'], case['kw'], case['gseed'], case['fam'])
+        run_recipe(ctx, case['name'], case['kw'], case['gseed'], case['fam'], case.get('feat'))
     elif case.get('kind') == 'super-stat':
         super_stat_case(ctx, case['grid'], case['shape'], case['over'], want_model=False)
     elif case.get('kind') == 'pupil':
